@@ -517,6 +517,14 @@ fn world_inner(e: &mut Emit, cfg: &Cfg, plan: &Plan) -> Option<Vec<String>> {
 fn pick_cfg(r: &mut Rng, scheme: SchemeType, parties: usize, k: usize, thorough: bool, want_batching: bool) -> Option<Cfg> {
     let lg = r.range(3, 5) as usize; let n = 1usize << lg;
     let mut bits: Vec<usize> = (0..k - 1).map(|_| *r.pick(&[45usize, 50, 55, 59])).collect(); bits.push(60);
+    // the family with a coefficient prime BELOW the plain modulus (BFV / BGV, at least two data primes): scalings by t must reduce t first
+    if scheme != SchemeType::CKKS && k >= 3 && want_batching && parties % 2 == 1 {
+        bits[0] = 22;
+        let qs = pick_primes(r, n, &bits)?;
+        let t = std::panic::catch_unwind(|| heathcliff::util::get_primes(2 * n as u64, 27, 1)[0].value()).ok()?;
+        if qs.iter().any(|&q| gcd(q, t) != 1) { return None; }
+        return Some(Cfg { scheme, n, qs, t, parties, wseed: r.next() >> 16 });
+    }
     let qs = pick_primes(r, n, &bits)?;
     let t = if scheme == SchemeType::CKKS { 0 } else if want_batching || r.chance(1, 2) {
         let b = (lg + 2).max(r.range(5, if k == 2 { 10 } else { 18 }) as usize);
